@@ -33,6 +33,7 @@ def cfg_identity(c):
   d["alpha_gt_one"] = undy(c["al"]) > 1.0
   d["slope_fits_grid"] = not (c["cls"] == "relu" and c["sl"] > 0 and 2 ** c["sl"] > 2 ** (c["bits"] - 1))
   d["clip"] = c["clip"]
+  d["integer_negative"] = c["int"] < 0
   return d
 
 
